@@ -2,9 +2,9 @@ package props
 
 import (
 	"fmt"
-	"strings"
 	"math/big"
 	"math/rand"
+	"strings"
 	"sync"
 
 	"github.com/consensys/gnark/frontend"
